@@ -61,6 +61,7 @@ fn small_config() -> BoxedStrategy<CbConfig> {
                 custom_classifier: false,
                 idle_slow_rate10: None,
                 wait_huge,
+                classifier_first: false,
             },
         )
         .boxed()
